@@ -519,14 +519,20 @@ def gen_last_ref(seed, mode="loop"):
     driven_skeleton(sc)
     steps = [[] for _ in range(8)]
     last = []
-    for i, kind in enumerate(r.sample(["start", "stop", "eval", "evt", "start", "eval", "flush", "flush"], r.randrange(2, 5)), start=1):
+    for i, kind in enumerate(r.sample(["start", "stop", "eval", "evt", "start", "eval", "flush", "flush", "refuse", "refuse"], r.randrange(2, 5)), start=1):
         sc.mod(i, "lr%d" % i, r.choice([0, MOD_NAME_DUP, MOD_UD_AUTOFREE]), 7)
         for k in ("eval", "start", "stop"):
             sc.cb(i, k, "*", [], ret=1)
         sc.cb(i, "evt", "*", [])
-        sc.cb(i, "evt" if kind == "flush" else kind, 0, [("dereg", -1)], ret=r.choice([0, 1]))
+        if kind == "refuse":
+            # on_start refuses, the library stops the module, on_stop drops the last reference
+            sc.cb(i, "start", 0, [], ret=0)
+            sc.cb(i, "stop", 0, [("dereg", -1)])
+            sc.cb(i, "eval", "*", [], ret=0)
+        else:
+            sc.cb(i, "evt" if kind == "flush" else kind, 0, [("dereg", -1)], ret=r.choice([0, 1]))
         sc.main += [("reg", i), ("obs_drop_keep_handle", i)]
-        if kind == "start":
+        if kind in ("start", "refuse"):
             steps[r.randrange(0, 3)].append(("start", i))
         elif kind == "stop":
             sc.main.append(("start", i))
@@ -904,6 +910,27 @@ def gen_registry_last_token(seed, mode="loop"):
     spend = [("fd_reg", M, 2, 0, sc.ud()), ("sub", M, sc.topic("alpha"), 0, sc.ud()), ("sub", M, sc.topic("beta"), 0, sc.ud())][:burst - 1]
     steps = [[("tb", M, 1, burst)] + spend + [bad_reg, ("srclen", M)], [("tb", M, 0, 0), ("srclen", M)], []]
     driven_finish(sc, steps, rng=r)
+    finalize_main(sc)
+    return sc
+
+
+def gen_pill_paused_restart(seed, mode="loop"):
+    """C08: a poison pill is accepted, its recipient is paused before the pill is read, the loop stops (a paused module's
+    mailbox is discarded there) and runs again, the recipient is resumed and sent more: nothing sent after the pill may reach it"""
+    r = random.Random(seed * 127 + 97)
+    sc = Sc(mode, "pill, pause, loop restart, resume seed=%d" % seed)
+    driven_skeleton(sc)
+    R, S2 = 1, 2
+    sc.mod(R, "rcpt", 0, r.choice([0, 4]))
+    sc.mod(S2, "sender", 0, 0)
+    sc.cb(R, "stop", "*", [])
+    sc.cb(R, "evt", "*", [])
+    sc.cb(S2, "evt", "*", [])
+    sc.main += [("reg", R), ("reg", S2), ("start", R), ("start", S2)]
+    before = [("tell", S2, R, sc.pay(), 0) for _ in range(r.randrange(0, 3))]
+    run1 = [[], before + [("pill", S2, R), ("pause", R)]] + [[] for _ in range(r.randrange(0, 3))]
+    run2 = [[("resume", R)], [("tell", S2, R, sc.pay(), 0), ("tell", S2, R, sc.pay(), 0)], [], []]
+    driven_multi(sc, [run1, run2], [[], []], rng=r)
     finalize_main(sc)
     return sc
 
